@@ -85,6 +85,20 @@ Theorem C01_tagged_refuted_for_mounted_blob_root_prefix :
 Proof. exact tagged_refuted_for_mounted_blob_root. Qed.
 Print Assumptions C01_tagged_refuted_for_mounted_blob_root_prefix.
 
+(* F12 does not need a pre-populated destination: EMPTY digest-keyed destination, source
+   graph in which a manifest's bytes also occur as a (reachable) blob; the blob is pushed
+   first, Exists(manifest) then answers true.  So [mt_consistent] is a restriction of the
+   property's quantifier over SOURCE graphs ("same bytes under two media types" is covered
+   only when both descriptors have the same successors, e.g. both are blobs) for digest-keyed
+   destinations -- known finding twin-digest-exists. *)
+Theorem C01_closure_refuted_in_call :
+  exists g c tr st,
+    closed_nodes g [] /\ accepts g c [] tr = Some st /\ returned st = Some true /\
+    tag st = Some (c_root c) /\
+    exists n, reach g (c_root c) n /\ has g (dst st) n = false.
+Proof. exact closure_refuted_in_call. Qed.
+Print Assumptions C01_closure_refuted_in_call.
+
 (* hypotheses are satisfiable: a concrete 4-node run (shared blob, duplicate successor,
    one node already present, Tagger destination) *)
 Example C01_example :
